@@ -165,7 +165,7 @@ macro_rules! generic_for {
                 Some(std::cmp::Ordering::Equal) => "eq",
                 None => "none",
             };
-            ev["res"] = json!({"cmp": c, "lt": a < b, "le": a <= b, "gt": a > b, "ge": a >= b, "eq": a == b});
+            ev["res"] = json!({"cmp": c, "lt": a < b, "le": a <= b, "gt": a > b, "ge": a >= b, "eq": a == b, "ne": a != b});
         }
         "iv.make" => {
             let path = case["path"].as_str().unwrap();
